@@ -140,6 +140,8 @@ def make_inputs(kit, rng, ndims, big=True, blanks=True):
     rng.shuffle(fb)
     cfg_ = gamma.Config.draw(rng, ndims=ndims, payload="tame")
     rel = rng.choice(["independent", "independent", "same", "same-files"])
+    # one history in six lives in an index space far from 0 or below it (FAB headers of more than a hundred characters, signs)
+    far_shift = [None, None, None, None, None, [[1000, 20000, 300000], [-100000, 4096, 65536], [-8, -3, -16]][rng.randrange(3)]][rng.randrange(6)]
     lays_a = None
     for src, fields in (("A", fa), ("B", fb)):
         lays = [rand_layout(rng, len(c), (1 + rng.randint(0, 1)) if twins else (12 if big else 3)) for c in classes]
@@ -155,6 +157,8 @@ def make_inputs(kit, rng, ndims, big=True, blanks=True):
             ap = gamma.twin_ap(src, fields, ndims, nl, lays, time=cfg_.time)
         else:
             ap = gamma.make_ap(src, fields, classes, lays, ndims=ndims, time=cfg_.time)
+            if far_shift is not None:
+                gamma.shift_indices(ap, far_shift)        # the same index space for both plotfiles of the history
         gamma.write_plotfile(kit.path(src), ap, cfg_, gamma.Registry())
     return {"A": fa, "B": fb}
 
